@@ -634,6 +634,10 @@ func (p *parser) parseFunctionParameters() []*ast.Identifier {
 }
 
 func (p *parser) parseCallExpression(function ast.Expression) ast.Expression {
+	if function == nil {
+		return nil
+	}
+
 	exp := &ast.CallExpression{
 		TokenAble: ast.TokenAble{Token: p.curToken},
 		Function:  function,
@@ -718,6 +722,10 @@ func (p *parser) parseArrayLiteral() ast.Expression {
 }
 
 func (p *parser) parseIndexExpression(left ast.Expression) ast.Expression {
+	if left == nil {
+		return nil
+	}
+
 	exp := &ast.IndexExpression{TokenAble: ast.TokenAble{Token: p.curToken}, Left: left}
 
 	p.nextToken()
